@@ -13,7 +13,9 @@ META = {
                    'counter over - the collection rendered beside it; InlineGenerator and PythonGenerator map every TypedDict key '
                    'from the same source field) and E-TAB over the checked-in tools/zonedbpy (header counts, map keys, policy '
                    'references, every entry against its recorded TZ line, basic names inside extended names).',
-    'decided': 'rendered order does not depend on dict/set iteration order (apart from the exempt reason lists); template/argument '
+    'decided': 'rendered order does not depend on dict/set iteration order (apart from the exempt reason lists): every walk over a '
+               'set-typed local on the whole compile path is sorted or order-free; no class on the compile path fills a class-level '
+               'mutable container through self (two compilations in one process are independent); template/argument '
                'agreement; header counters; in-memory and file Python tables are built from the same fields; the zone list is the '
                'set of emitted zones; the checked-in Python database is internally consistent and equals its recorded lines; '
                'basic zone names are a subset of extended zone names',
